@@ -307,11 +307,17 @@ func (f *FieldCopyToGenerator) genListOrMap() *j.Statement {
 					j.Id("ElemType"): j.Id("o.ElemType"),
 					j.Id("Null"):     j.True(),
 				}),
-			).Else().Block(
-				j.If(j.Id("c.Elems").Op("==").Nil()).Block(
-					j.Id("c.Elems").Op("=").Add(mk),
-				),
-			)
+			).Else().BlockFunc(func(g *j.Group) {
+				// An existing value must follow the source: a map is always rebuilt (keys might have been
+				// removed), a list is rebuilt whenever its length differs (also when the source became nil).
+				if f.IsMap {
+					g.Id("c.Elems").Op("=").Add(mk)
+				} else {
+					g.If(j.Id("c.Elems").Op("==").Nil().Op("||").Len(j.Id(fieldName)).Op("!=").Len(j.Id("c.Elems"))).Block(
+						j.Id("c.Elems").Op("=").Add(mk),
+					)
+				}
+			})
 
 			g.If(j.Id(fieldName)).Op("!=").Nil().BlockFunc(func(g *j.Group) {
 				if (f.Kind == PrimitiveListKind) || (f.Kind == PrimitiveMapKind) {
